@@ -694,15 +694,15 @@ pub fn run(args: &Args) {
     let light = args.flag("light");
     let (dense_max, struct_max, struct_count) = match (prop.as_str(), t) {
         ("C03", false) => (1024, 1 << 17, 60),
-        ("C03", true) => (4096, 1 << 19, 300),
+        ("C03", true) => (2048, 1 << 18, 150),
         ("C07", false) => (512, 1 << 15, 60),
-        ("C07", true) => (2048, 1 << 17, 300),
+        ("C07", true) => (1024, 1 << 16, 150),
         ("C08", false) => (1024, 1 << 16, 80),
-        ("C08", true) => (4096, 1 << 18, 300),
+        ("C08", true) => (2048, 1 << 17, 200),
         ("C09", false) => (512, 1 << 14, 60),
-        ("C09", true) => (2048, 1 << 16, 300),
+        ("C09", true) => (1024, 1 << 15, 150),
         ("C15", false) => (1024, 1 << 16, 80),
-        ("C15", true) => (4096, 1 << 18, 300),
+        ("C15", true) => (2048, 1 << 17, 200),
         _ => (256, 4096, 20),
     };
     let mut lengths = lengths_from_args(args, dense_max, struct_max, struct_count, 0x5a);
